@@ -308,7 +308,7 @@ def _t1(ctx: Context) -> None:
                  f"check_convert_value: step is {show(step, 120)}", ctx.loc(f, rn))
         has_max = contains(v, lambda s: s[0] == "call" and s[1] == ("glob", "max") and ("call", DEC, (cattr("minValue"),), ()) in s[2])
         has_min = contains(v, lambda s: s[0] == "call" and s[1] == ("glob", "min") and ("call", DEC, (cattr("maxValue"),), ()) in s[2])
-        if not (has_max and has_min) and v[0] == "phi":
+        if not (has_max and has_min) and contains(v, lambda s_: s_[0] == "phi"):
             # clamp written with comparisons: `if x <= lower: x = lower` / `if x >= upper: x = upper` before the rounding
             def mentions(t, a):
                 return contains(t, lambda s_: s_ == ("call", DEC, (cattr(a),), ()))
